@@ -194,8 +194,19 @@ def run_case(case, ctx):
     with must_succeed('pickle round trip'):
         p = pickle.loads(pickle.dumps(other, 2))
     with must_succeed('to_table/from_table'):
-        t = Extinction.from_table(other.to_table())
-    for e, what in ((p, 'after pickling'), (t, 'after to_table/from_table')):
+        tab = other.to_table()
+        t = Extinction.from_table(tab)
+        # the table the law was built from (and the one it was exported to) goes on living in the caller's hands: editing
+        # it afterwards must change neither law
+        tab['chi'][:] = tab['chi'][::-1].copy() * 3.
+        tab['wav'][:] = tab['wav'] * 1.5
+        try:
+            tab['wav'].convert_unit_to(u.AA if case['table_wav_unit'] != 'AA' else u.micron)
+        except Exception:  # noqa: not all column types convert in place; the edits above already happened
+            pass
+    labels.add('table_edited_after_conversion')
+    for e, what in ((p, 'after pickling'), (t, 'after to_table/from_table (table edited afterwards)'),
+                    (other, 'the law whose exported table was edited')):
         check_values(query(e, case['query_unit']), want, qs, ends,
                      case['query_unit'] == 'um' and case['table_wav_unit'] == 'um', what, 'c14:round_trip', law)
     # 5. text file reader with extra columns and a column selection
